@@ -503,6 +503,7 @@ func main() {
 	_ = types.Universe
 	internal := parseDir(filepath.Join(*repo, "internal"))
 	clock := parseDir(filepath.Join(*repo, "internal", "clock"))
+	bloom := parseDir(filepath.Join(*repo, "internal", "bf"))
 
 	// ---- package-level constants
 	consts := map[string]constant.Value{}
@@ -585,7 +586,10 @@ func main() {
 	for k, v := range clock {
 		all["clock/"+k] = v
 	}
-	for _, k := range []string{"next2Power", "rehash", "RoundUpPowerOf2", "saturatingAdd", "indexOf"} {
+	for k, v := range bloom {
+		all["bf/"+k] = v
+	}
+	for _, k := range []string{"next2Power", "rehash", "RoundUpPowerOf2", "saturatingAdd", "indexOf", "nextPowerOfTwo"} {
 		fd := findFunc(all, k)
 		if fd == nil {
 			fail(k + ": function not found")
